@@ -465,6 +465,14 @@ func runC15(p *core.Prog, r *core.Report) {
 			ev, ok := end[k]
 			r.Check(ok && ev == beg[k], "C15-R5", "attribute "+k+": REQ_BEG and REQ_END use the same source", p.FuncPos(relay), "both from "+short(beg[k]), "REQ_BEG takes "+k+" from "+short(beg[k])+" but REQ_END from "+short(ev))
 		}
+		// the URI and the method are the request's own (what the client sent): Request.RequestURI / Request.Method as they
+		// are — not re-derived from the parsed URL (which drops the absolute form and follows a handler's rewrites)
+		for attr, field := range map[string]string{"path": "field:Request.RequestURI", "method": "field:Request.Method"} {
+			if v, ok := beg[attr]; ok {
+				okSrc := strings.Contains(v, field) && !strings.Contains(v, "call:")
+				r.Check(okSrc, "C15-R5", "attribute "+attr+" is the request's own "+strings.TrimPrefix(field, "field:"), p.FuncPos(relay), "read from "+short(v), "the records take "+attr+" from "+short(v)+", not from "+strings.TrimPrefix(field, "field:")+": what is logged is not what the client sent (absolute-form targets lose their scheme and host, a handler that rewrites the URL changes REQ_END but not REQ_BEG)")
+			}
+		}
 		for _, must := range []string{"ip", "method", "path", "tid"} {
 			if _, ok := beg[must]; !ok {
 				r.Fail("C15-R5", "attribute "+must+" present in REQ_BEG", p.FuncPos(relay), "REQ_BEG has no attribute "+must)
